@@ -64,6 +64,15 @@ add("C24", "TLC exhaustive on JaxVIResume.tla (all crash points, <=2 crashes) + 
     "last.pkl plus a seeded sample). All histories are validated against JaxVIResumeTrace.tla.",
     TRUST + "crash = process kill; fsync/power-loss durability is outside the model.", )
 
+add("C25", "TLC exhaustive on ClVIResume.tla (all crash points, both strategies, sampled/MAP schedules) + SIGKILL injection at the recorded file-system effects of the real classic driver + trace validation of the histories",
+    "The classic driver's persistence protocol (energy/minisanity histories, sample files, mean, marker; strategies all/latest; sampled and MAP "
+    "iterations) is specified with one action per file-system effect, Crash in every state and Restart(resume) (ClVIResume.tla). TLC proves Resumable and "
+    "NotSilentlyWrong for strategy 'all' (<=2 crashes, 2-5 schedules), refutes them for 'latest' (known finding D10c) and for the pinned protocol "
+    "(repaired). The real driver runs in a child process under a file-system interposer; the crash points (thorough: every effect x before/after/torn of "
+    "6 strategy/schedule combinations; quick: the windows the model singles out plus a seeded sample) are realised by SIGKILL, the run is resumed and "
+    "compared bit for bit with the uninterrupted one. All histories are validated against ClVIResumeTrace.tla.",
+    TRUST + "crash = process kill; fsync/power-loss durability is outside the model.")
+
 
 def main():
     props = [json.loads(l) for l in open(os.path.join(HERE, "properties.jsonl"))]
